@@ -81,6 +81,8 @@ def realize(recipe):
                 return T.PintUnit(v)
             if k == "$quantity":
                 return T.PintQuantity(v)
+            if k == "$quantity2":
+                return T.PintQuantity(v[0], v[1])
             if k in ("$sivalue", "$qvalue"):
                 from metador_core.schema.common import SIValue
                 from metador_core.schema.common.schemaorg import QuantitativeValue
@@ -184,7 +186,9 @@ def recipe_for_hint(hint, depth=0, dates=True, objects=True):
                          st.builds(lambda s: {"$duration_s": s}, st.sampled_from([0, 1, 90, 3600, 1.5, 0.001, 86400.25, 1234567])))
     if issubclass(h, T.PintQuantity):
         q = st.builds(lambda m, u: f"{m} {u}", st.sampled_from(MAGS), st.sampled_from(UNITS))
-        return q if not objects else st.one_of(q, q.map(lambda s: {"$quantity": s}))
+        # quantities in offset / logarithmic units can only be built from (magnitude, unit)
+        q2 = st.builds(lambda m, u: {"$quantity2": [m, u]}, st.sampled_from([25.5, 0, -40, 3]), st.sampled_from(["degC", "degF", "kelvin", "meter", "dB"]))
+        return q if not objects else st.one_of(q, q.map(lambda s: {"$quantity": s}), q2)
     if issubclass(h, T.PintUnit):
         u = st.sampled_from(UNITS)
         return u if not objects else st.one_of(u, u.map(lambda s: {"$unit": s}))
